@@ -4,6 +4,7 @@
 // written by the harness is therefore always `ok` (or `ok-error` where the API documents a NULL result).
 //   c16 delaunay <seed> <n> <outbase>
 //   c16 cdt      <seed> <n> <outbase>
+//   c16 cdtcoll  <seed> <n> <outbase>   constrained triangulation of collections of interior-disjoint polygons (GC / MultiPolygon / nested)
 //   c16 voronoi  <seed> <n> <outbase>
 //   c16 predicates <seed> <n> <outbase>   the geometric decision functions themselves (TrianglePredicate, Vertex::isCCW/rightOf/leftOf/
 //                  isInCircle) on small-integer quadruples, where double arithmetic is exact: PR <8 hex doubles>  ->  7 integers (robust normalized nonrobust isCCW rightOf leftOf isInCircle)
@@ -12,7 +13,7 @@
 //   c16 sites    <tolhex> x y x y ...   (decimal integers) convenience: print a delaunay case line
 // Case grammar (tokens; geometry = GTree tokens, doubles = 16 hex digits):
 //   D <tol> <input MultiPoint> T (<geom>|ERR) E (<geom>|ERR)
-//   C <input Polygon> T (<geom>|ERR)
+//   C <input Polygon | collection containing polygons> T (<geom>|ERR)
 //   V <tol> <flags> (N | B <minx> <maxx> <miny> <maxy>) <input MultiPoint> O (<geom>|ERR)
 #include "common.h"
 #include "gtree.h"
@@ -266,7 +267,7 @@ static std::vector<P> starRing(Rng& r, int m, int keepPct, i64 rmin, i64 rmax, s
 }
 static std::vector<P> shift(std::vector<P> v, i64 dx, i64 dy, i64 mul = 1) { for (auto& p : v) { p.x = p.x * mul + dx; p.y = p.y * mul + dy; } return v; }
 
-static Poly genPoly(Rng& r, Out& out) {
+static Poly genPoly(Rng& r, Out& out, bool allowHuge = true) {
     Poly po; int k = (int) r.below(100);
     if (k < 30) {           // star-shaped shell, optional shrunken copy as a hole (possibly touching the shell at a vertex)
         po.cls = "star"; std::vector<P> dirs; std::vector<i64> rad;
@@ -335,7 +336,7 @@ static Poly genPoly(Rng& r, Out& out) {
             else hole = {P{x0 + 2, y0 + 2}, P{x0 + 4, y0 + 2}, P{x0 + 3, y0 + 4}, P{x0 + 2, y0 + 2}};
             po.rings.push_back(hole);
         }
-    } else if (k < 87) {    // convex quadrilateral whose four corners are nearly cocircular at the top of the grid range
+    } else if (k < 87 && allowHuge) {    // convex quadrilateral whose four corners are nearly cocircular at the top of the grid range
         po.cls = "near-cocircular-quad";
         P a = rndPt(r, LIM), b = rndPt(r, LIM), c = rndPt(r, LIM), d;
         if (det3(a, b, c) != 0 && findUndecided(r, a, b, c, d, 30000000L)) {
@@ -344,7 +345,7 @@ static Poly genPoly(Rng& r, Out& out) {
             q.push_back(q[0]); po.rings.push_back(q); out.count("nearcocirc_found");
         } else { out.count("nearcocirc_not_found"); po.cls = "star-large"; po.rings.push_back(starRing(r, 2, 50, 1, 1 << 10)); }
     } else {                // large / scaled star
-        po.cls = "star-large"; auto ring = starRing(r, r.range(2, 4), r.range(20, 70), 1, 1 << r.range(1, 18)); po.rings.push_back(ring);
+        po.cls = "star-large"; auto ring = starRing(r, r.range(2, 4), r.range(20, 70), 1, 1 << r.range(1, allowHuge ? 18 : 5)); po.rings.push_back(ring);
     }
     // random orientation of every ring; random start vertex
     for (auto& rg : po.rings) {
@@ -363,6 +364,129 @@ static std::string polyToks(const Poly& po, int k) {
     std::string s = "0 Y " + std::to_string(po.rings.size());
     for (auto& rg : po.rings) { s += " xy " + std::to_string(rg.size()); for (auto& p : rg) s += " " + hex(std::ldexp((double) p.x, k)) + " " + hex(std::ldexp((double) p.y, k)); }
     return s;
+}
+
+// ------------------------------------------------------------------ collections of polygons for the constrained triangulation
+// Components are valid polygons with pairwise disjoint interiors; they may share complete boundary edges, parts of edges
+// (T-junctions) or single vertices — all legal in a GeometryCollection (a MultiPolygon tag is used only when GEOS calls the
+// MultiPolygon valid).  Families: sectors of a star-shaped region around a common apex, a polygon with its holes plugged by
+// further polygons, columns of a histogram, cells of a lattice grid (whole, or cut along a diagonal), a triangle strip between
+// two lines (triangles alone or merged in pairs), independent polygons placed next to each other.  A random invertible integer
+// linear map (shear / stretch / reflection) is applied to the whole collection: validity and incidence are preserved, the
+// Delaunay condition is not, so edges shared by two components very often fail the in-circle test.
+struct Coll { std::vector<Poly> comps; std::string cls; std::vector<std::string> extras; bool nest = false; };
+
+static std::vector<P> closeRing(std::vector<P> v) { v.push_back(v[0]); return v; }
+
+static void fanSectors(Rng& r, const std::vector<P>& ringClosed, P apex, int dropPct, std::vector<Poly>& outp) {
+    size_t n = ringClosed.size() - 1; std::vector<size_t> cuts;
+    for (size_t i = 0; i < n; i++) if (r.chance(50)) cuts.push_back(i);
+    while (cuts.size() < 2) { size_t c = r.below(n); if (std::find(cuts.begin(), cuts.end(), c) == cuts.end()) cuts.push_back(c); std::sort(cuts.begin(), cuts.end()); }
+    for (size_t j = 0; j < cuts.size(); j++) {
+        size_t a = cuts[j], b = cuts[(j + 1) % cuts.size()];
+        std::vector<P> rg; rg.push_back(apex);
+        for (size_t i = a;; i = (i + 1) % n) { rg.push_back(ringClosed[i]); if (i == b) break; }
+        if (r.chance(dropPct)) continue;
+        Poly po; po.rings.push_back(closeRing(rg)); outp.push_back(po);
+    }
+}
+
+static Coll genColl(Rng& r, Out& out) {
+    Coll co; int k = (int) r.below(100);
+    if (k < 24) {           // sectors of a star-shaped region around the origin
+        co.cls = "fan-sectors";
+        auto ring = starRing(r, r.range(1, 3), r.range(40, 95), 1, r.range(1, 8));
+        fanSectors(r, ring, P{0, 0}, 12, co.comps);
+    } else if (k < 40) {    // a polygon with a hole, and the hole filled by one polygon or by sectors
+        co.cls = "hole-plug";
+        auto ring = starRing(r, r.range(1, 3), r.range(30, 90), 1, r.range(1, 6));
+        i64 f = r.range(1, 3); std::vector<P> shell = shift(ring, 0, 0, 4), hole = shift(ring, 0, 0, f);
+        if (r.chance(30)) { size_t i = r.below(hole.size() - 1); hole[i] = shell[i]; if (i == 0) hole.back() = hole[0]; co.cls = "hole-plug-touching"; }
+        Poly donut; donut.rings = {shell, hole}; co.comps.push_back(donut);
+        if (r.chance(50)) { Poly plug; plug.rings = {hole}; co.comps.push_back(plug); }
+        else fanSectors(r, hole, P{0, 0}, 10, co.comps);
+        if (r.chance(30)) { // a further ring of sectors outside the shell, sharing the shell's edges
+            std::vector<P> outer = shift(ring, 0, 0, 8); size_t n = ring.size() - 1;
+            for (size_t i = 0; i < n; i++) if (r.chance(60)) { Poly q; q.rings.push_back({shell[i], outer[i], outer[i + 1], shell[i + 1], shell[i]}); co.comps.push_back(q); }
+            co.cls += "+collar";
+        }
+    } else if (k < 55) {    // columns of a histogram: neighbours share (part of) a vertical side
+        co.cls = "columns"; int n = r.range(2, 7); bool conform = r.chance(50); if (conform) co.cls = "columns-conforming";
+        std::vector<i64> xs{0}, h; for (int i = 0; i < n; i++) { xs.push_back(xs.back() + r.range(1, 9)); h.push_back(r.range(1, 12)); }
+        for (int i = 0; i < n; i++) { if (r.chance(10)) continue;
+            std::vector<P> rg{P{xs[i], 0}}; if (xs[i + 1] - xs[i] >= 2 && r.chance(30)) rg.push_back(P{xs[i] + (xs[i + 1] - xs[i]) / 2, 0});
+            rg.push_back(P{xs[i + 1], 0});
+            if (conform && i + 1 < n && h[i + 1] < h[i]) rg.push_back(P{xs[i + 1], h[i + 1]});
+            rg.push_back(P{xs[i + 1], h[i]}); rg.push_back(P{xs[i], h[i]});
+            if (conform && i > 0 && h[i - 1] < h[i]) rg.push_back(P{xs[i], h[i - 1]});
+            Poly po; po.rings.push_back(closeRing(rg)); co.comps.push_back(po); }
+    } else if (k < 72) {    // cells of a lattice grid, whole or cut along a diagonal, some with a plugged hole
+        co.cls = "grid-cells"; int nx = r.range(1, 5), ny = r.range(1, 4); i64 cx = r.range(1, 6) * 4, cy = r.range(1, 6) * 4;
+        for (int i = 0; i < nx; i++) for (int j = 0; j < ny; j++) { if (r.chance(15)) continue;
+            P a{i * cx, j * cy}, b{(i + 1) * cx, j * cy}, c{(i + 1) * cx, (j + 1) * cy}, d{i * cx, (j + 1) * cy}; int m = (int) r.below(5);
+            if (m == 0) { Poly p1, p2; p1.rings.push_back({a, b, c, a}); p2.rings.push_back({a, c, d, a}); co.comps.push_back(p1); co.comps.push_back(p2); }
+            else if (m == 1) { Poly p1, p2; p1.rings.push_back({a, b, d, a}); p2.rings.push_back({b, c, d, b}); co.comps.push_back(p1); co.comps.push_back(p2); }
+            else if (m == 2) { P o{a.x + cx / 4 * r.range(1, 3), a.y + cy / 4 * r.range(1, 3)};   // four triangles around an interior lattice point
+                P q[5] = {a, b, c, d, a}; for (int e = 0; e < 4; e++) { Poly t; t.rings.push_back({o, q[e], q[e + 1], o}); co.comps.push_back(t); } }
+            else if (m == 3) { P o{a.x + cx / 2, a.y + cy / 2}; std::vector<P> hole = {P{o.x - 1, o.y}, P{o.x, o.y - 1}, P{o.x + 1, o.y}, P{o.x, o.y + 1}, P{o.x - 1, o.y}};
+                Poly cell; cell.rings = {{a, b, c, d, a}, hole}; co.comps.push_back(cell); if (r.chance(70)) { Poly plug; plug.rings = {hole}; co.comps.push_back(plug); } }
+            else { Poly cell; cell.rings.push_back({a, b, c, d, a}); co.comps.push_back(cell); } }
+    } else if (k < 88) {    // triangle strip between the lines y = 0 and y = H; triangles alone or merged in pairs
+        co.cls = "strip"; i64 H = r.range(1, 6); std::vector<P> bot{P{r.range(-6, 6), 0}}, top{P{r.range(-6, 6), H}};
+        int nb = r.range(1, 6), nt = r.range(1, 6); for (int i = 0; i < nb; i++) bot.push_back(P{bot.back().x + r.range(1, 9), 0}); for (int i = 0; i < nt; i++) top.push_back(P{top.back().x + r.range(1, 9), H});
+        size_t i = 0, j = 0; std::vector<std::vector<P>> tris;
+        while (i + 1 < bot.size() || j + 1 < top.size()) {
+            bool adv = (j + 1 >= top.size()) ? true : (i + 1 >= bot.size()) ? false : r.chance(50);
+            if (adv) { tris.push_back({bot[i], bot[i + 1], top[j]}); i++; } else { tris.push_back({top[j], bot[i], top[j + 1]}); j++; }
+        }
+        for (size_t t = 0; t < tris.size(); t++) {
+            if (r.chance(8)) continue;
+            Poly po;
+            if (t + 1 < tris.size() && r.chance(25)) {   // merge with the next triangle (they share the diagonal): a quadrilateral
+                std::vector<P> a = tris[t], b = tris[t + 1]; std::vector<P> sh, oa, ob;
+                for (auto& p : a) { if (std::find(b.begin(), b.end(), p) != b.end()) sh.push_back(p); else oa.push_back(p); }
+                for (auto& p : b) if (std::find(a.begin(), a.end(), p) == a.end()) ob.push_back(p);
+                if (sh.size() == 2 && oa.size() == 1 && ob.size() == 1 && det3(oa[0], sh[0], ob[0]) != 0 && det3(oa[0], sh[1], ob[0]) != 0) { po.rings.push_back({oa[0], sh[0], ob[0], sh[1], oa[0]}); t++; co.cls = "strip-merged"; }
+                else po.rings.push_back(closeRing(a));
+            } else po.rings.push_back(closeRing(tris[t]));
+            co.comps.push_back(po);
+        }
+    } else {                // independent polygons (every class of the single-polygon stream) placed next to each other
+        co.cls = "scattered"; int n = r.range(2, 4); i64 at = 0;
+        for (int c = 0; c < n; c++) { Poly po = genPoly(r, out, false);
+            i64 mn = po.rings[0][0].x, mx = mn; for (auto& rg : po.rings) for (auto& p : rg) { mn = std::min(mn, p.x); mx = std::max(mx, p.x); }
+            i64 dx = at - mn; for (auto& rg : po.rings) for (auto& p : rg) p.x += dx; at += (mx - mn) + r.range(0, 3); co.comps.push_back(po); }
+    }
+    if (co.comps.empty()) { Poly po; po.rings.push_back({P{0, 0}, P{3, 0}, P{0, 2}, P{0, 0}}); co.comps.push_back(po); }
+    // random ring orientation / start vertex, random order of the components
+    for (auto& po : co.comps) for (auto& rg : po.rings) { rg.pop_back(); if (r.chance(50)) std::reverse(rg.begin(), rg.end()); std::rotate(rg.begin(), rg.begin() + (long) r.below(rg.size()), rg.end()); rg.push_back(rg[0]); }
+    for (size_t i = co.comps.size(); i > 1; i--) std::swap(co.comps[i - 1], co.comps[r.below(i)]);
+    // invertible integer linear map
+    if (r.chance(60)) { i64 a, b, c, d; do { a = r.range(-2, 2); b = r.range(-3, 3); c = r.range(-2, 2); d = r.range(-2, 2); } while (a * d - b * c == 0);
+        for (auto& po : co.comps) for (auto& rg : po.rings) for (auto& p : rg) { i64 x = a * p.x + b * p.y, y = c * p.x + d * p.y; p.x = x; p.y = y; }
+        out.count("linear_map"); }
+    co.nest = r.chance(25);
+    return co;
+}
+
+static std::string polyBody(const Poly& po, int k) { return polyToks(po, k).substr(2); }
+
+// tokens of the collection; `asMulti`: MultiPolygon tag.  With `nest`, polygons are spread over nested collections together with
+// members the triangulator must ignore (points, lines, an empty polygon)
+static std::string collToks(Rng& r, const Coll& co, int k, bool asMulti) {
+    std::vector<std::string> m; for (auto& po : co.comps) m.push_back(polyBody(po, k));
+    if (asMulti) { std::string s = "0 MY " + std::to_string(m.size()); for (auto& b : m) s += " " + b; return s; }
+    if (!co.nest) { std::string s = "0 GC " + std::to_string(m.size()); for (auto& b : m) s += " " + b; return s; }
+    std::vector<std::string> top; size_t i = 0;
+    const std::string pt = "P xy 1 " + hex(std::ldexp(1.0, k)) + " " + hex(std::ldexp(2.0, k)), ln = "L xy 2 " + hex(0.0) + " " + hex(0.0) + " " + hex(std::ldexp(3.0, k)) + " " + hex(std::ldexp(1.0, k));
+    while (i < m.size()) {
+        int w = (int) r.below(4);
+        if (w == 0) { top.push_back(pt); top.push_back(m[i++]); }
+        else if (w == 1) { size_t g = 1 + r.below(3); std::string s; size_t cnt = 0; for (; cnt < g && i < m.size(); cnt++) s += " " + m[i++]; top.push_back("GC " + std::to_string(cnt + 1) + " " + ln + s); }
+        else if (w == 2) { top.push_back("Y 1 xy 0"); top.push_back(m[i++]); }
+        else top.push_back(m[i++]);
+    }
+    std::string s = "0 GC " + std::to_string(top.size()); for (auto& b : top) s += " " + b; return s;
 }
 
 // ------------------------------------------------------------------ the decision functions themselves (stream `predicates`)
@@ -486,6 +610,35 @@ int main(int argc, char** argv) {
                     valid = GEOSisValid_r(H, reinterpret_cast<const GEOSGeometry*>(in.get())) == 1 && !in->isEmpty(); } catch (std::exception&) { valid = false; }
               if (!valid) { out.count("generated_invalid_skipped"); out.count("invalid_" + po.cls); i--; continue; } }
             out.count("class_" + po.cls); out.count(std::string("holes_") + (po.rings.size() == 1 ? "0" : po.rings.size() <= 3 ? "1-2" : "3+"));
+            std::string c = runCdt(toks);
+            if (c.find(" ERR") != std::string::npos) out.count("impl_error");
+            out.emit(c, "ok");
+        }
+    } else if (stream == "cdtcoll") {
+        for (long i = 0; i < n; i++) {
+            Coll co = genColl(r, out);
+            std::vector<P> all; for (auto& po : co.comps) for (auto& rg : po.rings) for (auto& p : rg) all.push_back(p);
+            int k = placeOnGrid(r, all, out); size_t q = 0; for (auto& po : co.comps) for (auto& rg : po.rings) for (auto& p : rg) p = all[q++];
+            // safety net only (valid and interior-disjoint by construction): every component valid and non-empty, no two interiors meet
+            bool ok = true; std::vector<std::unique_ptr<geos::geom::Geometry>> gs;
+            try { for (auto& po : co.comps) { gs.push_back(buildGeom(polyToks(po, k), geos::geom::GeometryFactory::getDefaultInstance()));
+                      if (gs.back()->isEmpty() || GEOSisValid_r(H, reinterpret_cast<const GEOSGeometry*>(gs.back().get())) != 1) ok = false; }
+                  for (size_t a = 0; ok && a < gs.size(); a++) for (size_t b = a + 1; ok && b < gs.size(); b++)
+                      if (gs[a]->getEnvelopeInternal()->intersects(gs[b]->getEnvelopeInternal()) &&
+                          GEOSRelatePattern_r(H, reinterpret_cast<const GEOSGeometry*>(gs[a].get()), reinterpret_cast<const GEOSGeometry*>(gs[b].get()), "2********") != 0) ok = false;
+            } catch (std::exception&) { ok = false; }
+            if (!ok) { out.count("generated_invalid_skipped"); out.count("invalid_" + co.cls); i--; continue; }
+            bool asMulti = false;
+            if (r.chance(40)) { std::string mt = collToks(r, co, k, true);
+                try { auto in = buildGeom(mt, geos::geom::GeometryFactory::getDefaultInstance()); asMulti = GEOSisValid_r(H, reinterpret_cast<const GEOSGeometry*>(in.get())) == 1; } catch (std::exception&) {} }
+            std::string toks = collToks(r, co, k, asMulti);
+            out.count("class_" + co.cls); out.count(asMulti ? "container_multipolygon" : co.nest ? "container_nested_collection" : "container_collection");
+            out.count(std::string("components_") + (co.comps.size() <= 2 ? "1-2" : co.comps.size() <= 6 ? "3-6" : "7+"));
+            // how many pairs of components share a complete boundary edge (same two end points)
+            { std::set<std::pair<P, P>> seen; long shared = 0;
+              for (auto& po : co.comps) { std::set<std::pair<P, P>> mine; for (auto& rg : po.rings) for (size_t e = 0; e + 1 < rg.size(); e++) { P a = rg[e], b = rg[e + 1]; if (b < a) std::swap(a, b); mine.insert({a, b}); }
+                  for (auto& e : mine) { if (seen.count(e)) shared++; else seen.insert(e); } }
+              out.count(shared ? "has_shared_edges" : "no_shared_edges"); out.count("shared_edges", shared); }
             std::string c = runCdt(toks);
             if (c.find(" ERR") != std::string::npos) out.count("impl_error");
             out.emit(c, "ok");
